@@ -1,4 +1,6 @@
 import Beeb.Props.C01
 import Beeb.Props.C02
 import Beeb.Props.C04
+import Beeb.Props.C14
+import Beeb.Props.C16
 import Beeb.Props.C17
